@@ -314,6 +314,8 @@ def _r4(ctx):
         'flat': lambda items: items,
         'nested': lambda items: [items[0], ListV(items[1:])],
         'deep': lambda items: [ListV([items[0], ListV([items[1]])]), items[2]],
+        # a range handed over by the host as rows of tuples (cursor rows) is an array like any other
+        'rows of tuples': lambda items: [ListV([ListV(items[:2], 'tuple'), ListV(items[2:], 'tuple')])],
     }
     for fn in ('AND', 'OR', 'XOR'):
         for pos in (0, 1, 2):
@@ -341,6 +343,7 @@ def _r5(ctx):
     shapes = {
         'flat': lambda items: items,
         'nested': lambda items: [ListV(items[:1]), ListV([ListV(items[1:])])] if len(items) > 1 else [ListV(items)],
+        'rows of tuples': lambda items: [ListV([ListV(items[:1], 'tuple'), ListV(items[1:], 'tuple')])] if len(items) > 1 else [ListV([ListV(items, 'tuple')])],
     }
     for fn, f in sorted(spec.items()):
         for arity in (1, 2, 3):
@@ -422,6 +425,19 @@ def _r6(ctx):
         return o.kind == 'return' and isinstance(o.value, Err) and o.value.name == NA
     guarded(ctx, 'R6', 'IFS', {'pairs': 3, 'conditions': 'symbolic logicals'}, mk, judge,
             'the value paired with the first true condition, else #N/A', key='pairing')
+    # conditions after the first true one play no part - not even an error among them (the guard idiom IFS(A1=0, "zero", 10/A1>2, ...))
+    for pos in (1, 2):
+        def mk2(pos=pos):
+            args = []
+            for i in range(3):
+                args.append(Sym('err', 'E') if i == pos else Const(i == pos - 1))
+                args.append(Sym('int', 'v%d' % i))
+            return args
+
+        def judge2(o, pos=pos):
+            return o.kind == 'return' and isinstance(o.value, Sym) and o.value.name == 'v%d' % (pos - 1)
+        guarded(ctx, 'R6', 'IFS', {'first_true_condition': pos - 1, 'error_at_condition': pos}, mk2, judge2,
+                'the value paired with the first true condition: later conditions play no part, even an error', key='later-condition')
 
     # SWITCH
     def world(o):
